@@ -80,6 +80,11 @@ def fixed_scripts():
     add('p2sh-plain', bytes([OP_HASH160, 20]) + hash160(redeem) + bytes([OP_EQUAL]), stack=[b'\x09', redeem])
     add('near-201-ops', bytes([OP_NOP]) * 196 + asm(OP_1, OP_1, OP_ADD, OP_DUP, OP_DROP))
     add('hashes', asm(b'abc', OP_SHA256, OP_DUP, OP_HASH160, OP_SWAP, OP_RIPEMD160, OP_SIZE))
+    # sessions with nothing (or next to nothing) to execute: every rewind must be refused and change nothing
+    add('empty-script', b'', stack=[b'\x01'])
+    add('empty-script-empty-stack', b'')
+    add('one-op', asm(OP_1))
+    add('empty-scriptsig-then-spk', b'', succ=asm(OP_1, OP_DUP))
     return S
 
 
